@@ -261,6 +261,50 @@ func census(filter func(stack string) bool) []string {
 	return out
 }
 
+// lockedForGood is for a run that cannot go on (every task is blocked, no timer is pending): it
+// returns the goroutines of the bubble that wait, in a function of the library, for one of the
+// library's locks. A lock is held for a bounded piece of work; a goroutine that still waits for one
+// when nothing can happen any more waits for a holder that never releases it.
+func lockedForGood() []string {
+	return census(func(g string) bool { return lockWaiter(g) != "" })
+}
+
+// lockWaiter returns the library function that waits for a lock at the top of the stack g ("": none).
+func lockWaiter(g string) string {
+	var fns []string
+	for _, l := range strings.Split(g, "\n")[1:] {
+		if !strings.HasPrefix(l, "\t") && l != "" {
+			fns = append(fns, l)
+		}
+	}
+	for i, l := range fns {
+		if strings.Contains(l, "simrt.(*Mutex).Lock(") || strings.Contains(l, "simrt.(*RWMutex).Lock(") || strings.Contains(l, "simrt.(*RWMutex).RLock(") {
+			if i+1 < len(fns) {
+				if m := frameRe.FindStringSubmatch(fns[i+1]); m != nil && (!strings.HasPrefix(m[2], "verifsim") || strings.HasPrefix(m[2], "verifsim/cmdcollector")) {
+					return m[2] + "." + trimArgs(m[3])
+				}
+			}
+			return ""
+		}
+	}
+	return ""
+}
+
+// runEnded records a run that did not come to its end. "stuck" with goroutines of the library
+// waiting for the library's own locks is a deadlock in the code under test and a violation of
+// whatever the property promises about the calls that never return; anything else is trouble of
+// the harness (exit 2), never a verdict.
+func (e *Env) runEnded(res string, out *plan.Outcome) {
+	if res == "stuck" && e.Sim != nil {
+		if gs := lockedForGood(); len(gs) > 0 {
+			e.Violate("deadlock", lockWaiter(gs[0]), "the run cannot go on (every task is blocked and no timer is pending) while %d goroutines wait for a lock of the library that is never released, e.g. %s", len(gs), oneLineStack(gs[0]))
+			out.Hash = fmt.Sprintf("%s-stuck", out.Hash)
+			return
+		}
+	}
+	out.Trouble = "run ended: " + res
+}
+
 // execute runs one plan in a fresh bubble (or directly) and returns its outcome.
 func execute(t *testing.T, p *Prop, pl *plan.Plan, keepLog bool) (out *plan.Outcome) {
 	out = &plan.Outcome{Counters: map[string]int64{}}
